@@ -1,0 +1,9 @@
+//go:build !verif
+
+package prebuild
+
+// VerifTrace is a no-op unless built with the "verif" tag.
+func VerifTrace(ev string, kv ...any) {}
+
+// VerifNames is a no-op unless built with the "verif" tag.
+func VerifNames[T BaseInterface](tasks []T) []string { return nil }
